@@ -1209,6 +1209,10 @@ theorem err_table (e e' : Err) :
     (e.kind = "ImportError" ↔ e = .numpyMissing) := by
   cases e <;> cases e' <;> decide
 
+/-- the tags by which the tie tells the wrapper's rejections apart determine the rejection,
+the offending keyword included -/
+theorem plan_err_tags (e e' : PlanErr) : e.tag = e'.tag → e = e' := PlanErr.tag_inj e e'
+
 /-- the kind names the tie uses name the kinds (the driver's `ofName` finds the kind back) -/
 theorem wkind_names (k : WKind) : WKind.ofName k.name = some k := by
   cases k <;> decide
